@@ -40,16 +40,20 @@ TRUSTED = [
     'Qsqrt_ps: exact square root on squares of rationals (generators construct such inputs)',
 ]
 LEVEL_TEXT = ('Proof: for the heap-level transcription of every _call in proximal_operators.py (with its x-is-out '
-              'branches and temporaries), of the nine operator-arithmetic classes of operator.py (in-place and '
-              'out-of-place bodies), of Identity/Scaling/Zero/Constant/MultiplyOperator and of DiagonalOperator, Coq '
-              'proves for EVERY heap, every pair of refs x/out that are identical or disjoint, every operator tree and '
-              'every parameter value that the in-place call leaves in out exactly the value-level result of the OLD x, '
-              'changes no other live buffer, and that the out-of-place call returns the same value in a new buffer: '
-              'hence P(x, out=x) == P(x). The model is tied to the code by reifying live operator objects and an '
-              'in-Coq differential run of P(x), P(y,out=y), P(x,out=z).')
-LEVEL_NOTE = ('Validated, not proved: that the transcription matches the Python bodies (correspondence on all branches), '
-              'NumPy/ODL primitives being read-then-write, SVD-based nuclear-norm proximal and Lambert-W (probes only). '
-              'Axioms: classical reals + funext as printed.')
+              'branches, copies and temporaries), of the in-place and out-of-place bodies of the nine operator-arithmetic '
+              'classes of operator.py, of Identity/Scaling/Zero/Constant/Multiply/MatrixOperator, of the default in-place '
+              'bridge for operators without `out`, and of DiagonalOperator, Coq proves for EVERY heap, every pair of '
+              'elements x/out that are identical or disjoint, every operator tree (any depth) and every parameter value: '
+              'the in-place call leaves in out exactly the value-level result of the OLD x and changes no other live '
+              'buffer; the out-of-place call returns the same value in a new element; hence P(x, out=x) == P(x). The '
+              'aliased theorem holds over any carrier (no arithmetic law used). The model is tied to the code by '
+              'reifying live operator objects built by the library factories and an in-Coq differential run of P(x), '
+              'P(y,out=y), P(x,out=z) on every branch. The pre-fix proximal_l1 is proved to violate the theorem.')
+LEVEL_NOTE = ('Validated, not proved: that the transcription matches the Python bodies (correspondence on all branches; '
+              'statement coverage of the anchored _call bodies measured), NumPy/ODL primitives being read-then-write, '
+              'SVD of the nuclear-norm proximal and Lambert-W values (opaque functions in the model), user-supplied '
+              'temporaries of the expression classes, rounding/NaN. Axioms: classical reals + funext for the R '
+              'instances; the any-carrier theorem is closed under the global context.')
 TECHNIQUE = ('Coq heap model (store of buffers, fresh-allocation counter) + structural induction over operator trees; '
              'object reifier + in-Coq differential correspondence')
 
